@@ -485,6 +485,10 @@ def bip38_decrypt(encrypted_privkey, password, network=DEFAULT_NETWORK):
     flagbyte = d[2:3]
     address_hash: bytes = d[3:7]
     if identifier  == BIP38_EC_MULTIPLIED_PRIVATE_KEY_PREFIX:
+        if flagbyte not in [BIP38_MAGIC_NO_LOT_AND_SEQUENCE_UNCOMPRESSED_FLAG, BIP38_MAGIC_NO_LOT_AND_SEQUENCE_COMPRESSED_FLAG,
+                            BIP38_MAGIC_LOT_AND_SEQUENCE_UNCOMPRESSED_FLAG, BIP38_MAGIC_LOT_AND_SEQUENCE_COMPRESSED_FLAG]:
+            # The other bits of the flag byte are reserved and must be 0 (BIP38)
+            raise EncodingError("Unrecognised password protected key format. Flagbyte incorrect.")
         owner_entropy: bytes = d[7:15]
         encrypted_half_1_half_1: bytes = d[15:23]
         encrypted_half_2: bytes = d[23:-4]
@@ -561,7 +565,7 @@ def bip38_decrypt(encrypted_privkey, password, network=DEFAULT_NETWORK):
         d = d[3:]
         if flagbyte == b'\xc0':
             compressed = False
-        elif flagbyte == b'\xe0' or flagbyte == b'\x20':
+        elif flagbyte == b'\xe0':
             compressed = True
         else:
             raise EncodingError("Unrecognised password protected key format. Flagbyte incorrect.")
